@@ -13,7 +13,9 @@ omitted / explicit list / tuple / ndarray differing from the system's own map x 
 the map IN EFFECT is the explicit one when given; and (vii) wide networks (34 and 66 species) with a flag on species
 index 0, 1, 30, 31, 32, 33 or the last one: flagged entries bit-constant in every engine, Euler steps follow the rate
 law, Gillespie steps are legal events, and a tau-leap entry whose outflow makes "never changed" impossible (probability
-below 1e-30 under the Poisson-firings model) is not frozen.
+below 1e-30 under the Poisson-firings model) is not frozen; and (viii) flag provenance: the map in effect generated from
+Species.chstt (bool / per-environment dictionaries with and without "default"), edited with set_chemostat against the species
+flags, given explicitly over truthy species flags, reset or regenerated, on 2- and 3-environment grids and graphs.
 """
 import itertools
 import math
@@ -558,11 +560,8 @@ def check_prov(case):
         pass
     except Exception as e:
         out.append(("C03:apply_reaction:unexpected-exception", "%s: %s: %s" % (how, type(e).__name__, e)))
-    k0 = len(out)
     _engines(out, eff, system, case["seeds"], DT, 2, gil_iter=24)
-    for k in range(k0, len(out)):
-        out[k] = (out[k][0], "%s: %s" % (how, out[k][1]))
-    return out
+    return [(k, w if w.startswith(how) else "%s: %s" % (how, w)) for k, w in out]
 
 
 def check_case(case):
